@@ -19,6 +19,7 @@ type Request struct {
 	Host       string            // Host header of the request ("" = unknown)
 	Body       []byte            // bytes the client meant to send
 	BodyBroken bool              // the body stream failed with an error before its end
+	MayFail    bool              // the request's context was cancelled while every stream stayed healthy: it may be carried out, or refused with any status >= 400 and nothing changed
 
 	// CondHint lets a plan generator, which cannot know entity tags before the
 	// run, state what a conditional header means: header name -> "current" |
@@ -640,6 +641,11 @@ func (j *Judge) Step(req *Request, resp *Response) []Finding {
 	statusProp := "C01"
 	if o.conditional {
 		statusProp = "C04"
+	}
+	if req.MayFail && st >= 400 {
+		// a cancelled request that is refused: nothing is applied, and the
+		// comparison of the trees says whether nothing was done
+		return fs
 	}
 	if o.mustRefuse() {
 		ok := o.refuse[st] || o.alt[st] || ((o.any4xx || o.alt4xx) && st >= 400 && st < 500) || (o.anyFail && st >= 400)
